@@ -175,7 +175,7 @@ def rw_split_sample(rng, spec, obs, poi):
 
 def rw_scale_signal(rng, spec, obs, poi):
     s = copy.deepcopy(spec)
-    k = rng.choice([0.5, 2.0, 1.6])
+    k = rng.choice(SCALE_K)
     for c in s["channels"]:
         for smp in c["samples"]:
             if any(m["name"] == poi for m in smp["modifiers"]):
@@ -192,6 +192,10 @@ REWRITES = [rw_permute, rw_rename, rw_zero_sample, rw_null_sys, rw_split_channel
 
 
 # ------------------------------------------------------------------ observation of one side
+# signal scale factors of the case at hand: limit cases also use large factors (limits of order 1/k, where only a
+# tolerance relative to the limit keeps "limit x k" invariant)
+SCALE_K = [0.5, 2.0, 1.6]
+
 # model options of the case at hand (both spellings of a model are always built with the same options)
 MODEL_KW = {}
 
@@ -278,6 +282,7 @@ def check_model(case, shard):
     spec, obs, poi, mu = case["spec"], case["obs"], "mu", case["mu"]
     backend = case["backend"]
     want_limit = case.get("limit", False)
+    SCALE_K[:] = [0.5, 2.0, 40.0, 80.0] if want_limit else [0.5, 2.0, 1.6]
     MODEL_KW.clear()
     MODEL_KW.update(case.get("model_kw") or {})
     if MODEL_KW:
